@@ -1499,4 +1499,202 @@ mod n {
             c14_run(c, &edits, &[a, b], &base, &base_fp);
         });
     }
+
+    // ---- C04: the JSON model format is lossless, idempotent and stable -------------------------------------------
+    /// A model that carries every kind of element; `flip(k)` toggles one optional / defaulted field between
+    /// "absent or equal to its serde default" and "present and different from the default".
+    const N_TOGGLES: usize = 34;
+
+    fn toggled_model(flips: &[usize]) -> Model {
+        let f = |k: usize| flips.contains(&k);
+        let mut m = seed_model();
+        // meta
+        m.meta.name = if f(0) { String::new() } else { "Proyecto".into() };
+        m.meta.global_ventilation_l_s = if f(1) { None } else { Some(40.0) };
+        m.meta.n50_test_ach = if f(2) { Some(3.5) } else { None };
+        m.meta.d_perim_insulation = if f(3) { 1.25 } else { 0.0 };
+        m.meta.rn_perim_insulation = if f(4) { 0.75 } else { 0.0 };
+        // space
+        m.spaces[0].name = if f(5) { String::new() } else { "Salon".into() };
+        m.spaces[0].multiplier = if f(6) { 2.0 } else { 1.0 };
+        m.spaces[0].kind = if f(7) { SpaceType::UNINHABITED } else { SpaceType::CONDITIONED };
+        m.spaces[0].inside_tenv = !f(8);
+        m.spaces[0].z = if f(9) { -1.5 } else { 0.0 };
+        m.spaces[0].n_v = if f(10) { Some(0.63) } else { None };
+        m.spaces[0].illuminance = if f(11) { Some(300.0) } else { None };
+        m.spaces[1].loads = if f(12) { None } else { Some(uid(0xB1)) };
+        // walls / geometry
+        m.walls[0].name = if f(13) { String::new() } else { "Solera".into() };
+        m.walls[1].next_to = if f(14) { None } else { Some(uid(0xA0)) };
+        m.walls[2].geometry.position = if f(15) { None } else { Some(point![0.0, 0.0, 5.5]) };
+        m.walls[3].geometry.polygon = if f(16) { vec![] } else { rect(4.0, 3.0) };
+        // windows
+        m.windows[1].geometry.position = if f(17) { None } else { Some(point![2.0, 1.0]) };
+        m.windows[0].name = if f(18) { String::new() } else { "V1".into() };
+        // bridges: kind / l / psi equal to / different from their serde defaults (GENERIC, 0, 0)
+        m.thermal_bridges[0].kind = if f(19) { ThermalBridgeKind::GENERIC } else { ThermalBridgeKind::CORNER };
+        m.thermal_bridges[0].l = if f(20) { 0.0 } else { 6.0 };
+        m.thermal_bridges[1].psi = if f(21) { 0.0 } else { 0.2 };
+        // constructions: both material variants, optional vapour factor, optional shading factor, empty layers
+        m.cons.materials[0].properties = MatProps::Detailed { conductivity: 0.5, density: 1000.0, specific_heat: 1000.0, vapour_diff: if f(22) { Some(10.0) } else { None } };
+        m.cons.materials[1].properties = MatProps::Resistance { resistance: 0.18, vapour_diff: if f(23) { Some(1.0) } else { None } };
+        m.cons.wincons[0].g_glshwi = if f(24) { Some(0.33) } else { None };
+        if f(25) {
+            m.cons.wallcons[0].layers.clear();
+        }
+        if f(26) {
+            m.cons.glasses.clear();
+        }
+        // collections empty / not
+        if f(27) {
+            m.shades.clear();
+        }
+        if f(28) {
+            m.schedules = SchedulesDb::default();
+        }
+        if f(29) {
+            m.thermostats.clear();
+        }
+        // overrides
+        if f(30) {
+            m.overrides.walls.clear();
+        }
+        m.overrides.windows.clear();
+        if f(31) {
+            m.overrides.windows.insert(uid(0x11), WinPropsOverrides { u_value: Some(1.9), f_shobst: None });
+            m.overrides.windows.insert(uid(0x12), WinPropsOverrides { u_value: None, f_shobst: Some(0.61) });
+        }
+        // loads / schedules with optional links
+        m.loads[0].equipment_schedule = if f(32) { None } else { Some(uid(0x30)) };
+        // the "extra" list of differences with HULC
+        m.extra = if f(33) {
+            Some(vec![ExtraData { name: "Solera".into(), bounds: BoundaryType::GROUND, spacetype: SpaceType::CONDITIONED, nextspace: None, nextspacetype: Some(SpaceType::UNINHABITED), tilt: Tilt::BOTTOM, cons: uid(0xC0), u: 0.53, computed_u: 0.49 }])
+        } else {
+            None
+        };
+        m
+    }
+
+    #[test]
+    fn n_c04_roundtrip() {
+        drive("C04.roundtrip", "Model::as_json / Model::from_json on a model with every kind of element: none, each single one and each pair of 34 optional / defaulted fields flipped (absent or default <-> present and different)", |c| {
+            let mode = c.pick(3);
+            let flips: Vec<usize> = match mode {
+                0 => vec![],
+                1 => vec![c.pick(N_TOGGLES)],
+                _ => {
+                    let a = c.pick(N_TOGGLES);
+                    let b = c.pick(N_TOGGLES);
+                    if b <= a {
+                        return;
+                    }
+                    vec![a, b]
+                }
+            };
+            c.note(format!("flipped fields {:?}", flips));
+            let m = toggled_model(&flips);
+            let json = match m.as_json() {
+                Ok(j) => j,
+                Err(e) => {
+                    c.check("C04.serialises", false, || format!("as_json failed: {}", e));
+                    return;
+                }
+            };
+            let m2 = match Model::from_json(&json) {
+                Ok(x) => x,
+                Err(e) => {
+                    c.check("C04.loads_back", false, || format!("from_json failed: {}", e));
+                    return;
+                }
+            };
+            // equal in every field: Debug prints every field of every element
+            let (d1, d2) = (format!("{:?}", m), format!("{:?}", m2));
+            c.check("C04.lossless", d1 == d2, || {
+                let k = d1.bytes().zip(d2.bytes()).position(|(a, b)| a != b).unwrap_or(0);
+                format!("loaded model differs near: ...{} <> ...{}", &d1[k.saturating_sub(60)..(k + 60).min(d1.len())], &d2[k.saturating_sub(60)..(k + 60).min(d2.len())])
+            });
+            // serialising again yields the identical text
+            let json2 = m2.as_json().unwrap_or_default();
+            c.check("C04.idempotent", json == json2, || "second serialisation differs from the first".to_string());
+            // stable field names / types: the generic JSON value loads as well
+            c.check("C04.valid_json", serde_json::from_str::<serde_json::Value>(&json).is_ok(), || "not valid JSON".to_string());
+            c.nontrivial(format!("{:?}", flips));
+            c.sample(|| format!("flips {:?}: {} bytes of JSON", flips, json.len()));
+        });
+    }
+
+    // every model file shipped with the repository loads and re-serialises to the same JSON value
+    #[test]
+    fn n_c04_shipped_models() {
+        let files: Vec<(&str, &str)> = vec![
+            ("cajazapatos_bombacaloracs.json", include_str!(concat!(env!("CARGO_MANIFEST_DIR"), "/tests/data/cajazapatos_bombacaloracs.json"))),
+            ("caso_a.json", include_str!(concat!(env!("CARGO_MANIFEST_DIR"), "/tests/data/caso_a.json"))),
+            ("cubo.json", include_str!(concat!(env!("CARGO_MANIFEST_DIR"), "/tests/data/cubo.json"))),
+            ("cubo_gt_caldera_radiadores.json", include_str!(concat!(env!("CARGO_MANIFEST_DIR"), "/tests/data/cubo_gt_caldera_radiadores.json"))),
+            ("e4h_medianeras.json", include_str!(concat!(env!("CARGO_MANIFEST_DIR"), "/tests/data/e4h_medianeras.json"))),
+            ("ejemplo_gt_aerotermia.json", include_str!(concat!(env!("CARGO_MANIFEST_DIR"), "/tests/data/ejemplo_gt_aerotermia.json"))),
+            ("ejemploviv_unif.json", include_str!(concat!(env!("CARGO_MANIFEST_DIR"), "/tests/data/ejemploviv_unif.json"))),
+        ];
+        drive("C04.shipped", "the 7 model files under bemodel/tests/data: load, re-serialise, compare JSON values; second round trip identical", |c| {
+            let (name, text) = c.of(&files);
+            c.note(name.to_string());
+            let m = match Model::from_json(text) {
+                Ok(m) => m,
+                Err(e) => {
+                    c.check("C04.shipped.loads", false, || format!("{} does not load: {}", name, e));
+                    return;
+                }
+            };
+            let out = m.as_json().unwrap();
+            let (v_in, v_out): (serde_json::Value, serde_json::Value) = (serde_json::from_str(text).unwrap(), serde_json::from_str(&out).unwrap());
+            // compare values (numbers through f32: the file's decimal text and the re-printed one denote the same f32)
+            fn diff(a: &serde_json::Value, b: &serde_json::Value, path: &mut Vec<String>, out: &mut Vec<String>) {
+                use serde_json::Value::*;
+                match (a, b) {
+                    (Object(x), Object(y)) => {
+                        for k in x.keys().chain(y.keys()) {
+                            path.push(k.clone());
+                            match (x.get(k), y.get(k)) {
+                                (Some(p), Some(q)) => diff(p, q, path, out),
+                                (Some(_), None) => out.push(format!("dropped: /{}", path.join("/"))),
+                                (None, Some(_)) => out.push(format!("added: /{}", path.join("/"))),
+                                _ => {}
+                            }
+                            path.pop();
+                        }
+                    }
+                    (Array(x), Array(y)) => {
+                        if x.len() != y.len() {
+                            out.push(format!("array length {} -> {} at /{}", x.len(), y.len(), path.join("/")));
+                        }
+                        for (i, (p, q)) in x.iter().zip(y.iter()).enumerate() {
+                            path.push(i.to_string());
+                            diff(p, q, path, out);
+                            path.pop();
+                        }
+                    }
+                    (Number(x), Number(y)) => {
+                        let (fx, fy) = (x.as_f64().unwrap_or(f64::NAN) as f32, y.as_f64().unwrap_or(f64::NAN) as f32);
+                        if fx != fy {
+                            out.push(format!("number {} -> {} at /{}", x, y, path.join("/")));
+                        }
+                    }
+                    (p, q) => {
+                        if p != q {
+                            out.push(format!("value {} -> {} at /{}", p, q, path.join("/")));
+                        }
+                    }
+                }
+            }
+            let mut d = vec![];
+            diff(&v_in, &v_out, &mut vec![], &mut d);
+            d.dedup();
+            c.check("C04.shipped.same_value", d.is_empty(), || format!("{}: {} differences, first: {:?}", name, d.len(), &d[..d.len().min(4)]));
+            let m2 = Model::from_json(&out).unwrap();
+            c.check("C04.shipped.idempotent", m2.as_json().unwrap() == out, || format!("{}: second serialisation differs", name));
+            c.check("C04.shipped.lossless", format!("{:?}", m) == format!("{:?}", m2), || format!("{}: reloaded model differs", name));
+            c.nontrivial(name.to_string());
+            c.sample(|| format!("{}: {} spaces {} walls {} windows", name, m.spaces.len(), m.walls.len(), m.windows.len()));
+        });
+    }
 }
